@@ -453,13 +453,20 @@ func TestVerifC37Table(t *testing.T) {
 				}
 			}
 			if nm > 0 {
+				// every differing path with the real result (used to attribute the cause, see props/_doublestar.py)
+				var diffs [][]interface{}
+				for j := range paths {
+					if real[j] != exOr[j] {
+						diffs = append(diffs, []interface{}{paths[j], real[j]})
+					}
+				}
 				for j := range paths {
 					if real[j] != exOr[j] {
 						dir := "expansions-only"
 						if real[j] {
 							dir = "pattern-only"
 						}
-						report("match", map[string]interface{}{"p": s, "path": paths[j], "npaths": nm, "dir": dir, "ex": exs})
+						report("match", map[string]interface{}{"p": s, "path": paths[j], "npaths": nm, "dir": dir, "ex": exs, "diffs": diffs})
 						break
 					}
 				}
